@@ -178,6 +178,16 @@ func (w *World) RunScript(lines []string) (err error) {
 
 func (w *World) ack(p int, op operation.Operation, err error) {
 	if err != nil {
+		// a write that failed AFTER its entry was appended (the head could not be persisted): the entry
+		// is in the log, the caller was told the write failed
+		if s, ok := w.stores[p]; ok && s.OpLog().Len() > w.lenBefore {
+			for _, e := range s.OpLog().Values().Slice() {
+				if _, named := w.names[e.GetHash().String()]; !named {
+					w.printf("ackfail %d %s\n", p, w.name(e))
+					return
+				}
+			}
+		}
 		w.printf("ack %d err\n", p)
 		return
 	}
@@ -187,6 +197,9 @@ func (w *World) ack(p int, op operation.Operation, err error) {
 
 // beforeWrite records whether the write will be announced (the store publishes only when the topic has peers).
 func (w *World) beforeWrite(p int) {
+	if s, ok := w.stores[p]; ok {
+		w.lenBefore = s.OpLog().Len()
+	}
 	w.sentMark = w.net.SentCount()
 	w.expectPub = w.hasTopicPeers(p)
 }
